@@ -364,6 +364,12 @@ func (x *executor) doCall(ti, ci int, ctx *callCtx) {
 	ctx.attrib = x.attrib
 	var out gonnx.Tensors
 	if x.sch != nil {
+		for o, om := range x.sch.inRun {
+			if o != ti && om == call.Model+1 {
+				x.sch.overlaps++
+				break
+			}
+		}
 		x.sch.inRun[ti] = call.Model + 1
 	}
 	res.Kind, res.Err = guardRun(func() (err error) { out, err = lm.m.Run(in); return })
@@ -483,7 +489,7 @@ func execute(c *Case, pol policy, attrib bool, checkState bool) *worldRun {
 		rec := s.rec
 		wr.sched = &rec
 		wr.steps = s.steps
-		wr.preemptInsideRun = s.preemptInsideRun
+		wr.preemptInsideRun = s.preemptInsideRun + s.overlaps
 		wr.switches = s.switches
 		wr.aborted = s.aborted
 		wr.overlapOps = s.overlapOps
